@@ -269,6 +269,7 @@ enum Op {
     ExitH(u64),
     Cur(u64, bool),
     Event(Pk),
+    EventQ(i64), // an event whose explicit parent is the retained Id of span number q (possibly stale)
     SetDef(i64),
     UnsetDef,
     Read(u64),
@@ -470,6 +471,21 @@ impl Worker {
                         d.event(&ev)
                     }
                 });
+            }
+            Op::EventQ(q) => {
+                let x = lock(&sh.raw).get(q).cloned();
+                match x {
+                    None => log("{\"k\":\"ill\",\"c\":4}".into()),
+                    Some((_, id, _)) => {
+                        let vs = EVENT_META.fields().value_set(&[]);
+                        let ev = Event::new_child_of(id, &EVENT_META, &vs);
+                        dispatch::get_default(|d| {
+                            if d.enabled(&EVENT_META) {
+                                d.event(&ev)
+                            }
+                        });
+                    }
+                }
             }
             Op::PDrop(h) => {
                 let x = lock(&sh.handles).remove(h);
@@ -747,6 +763,7 @@ fn parse_op(f: &[&str]) -> (usize, Op) {
         "exith" => Op::ExitH(n(2)),
         "cur" => Op::Cur(n(2), f[3] == "1"),
         "event" => Op::Event(parse_pk(&f[2..])),
+        "evq" => Op::EventQ(f[2].parse().unwrap()),
         "setdef" => Op::SetDef(f[2].parse().unwrap()),
         "unsetdef" => Op::UnsetDef,
         "read" => Op::Read(n(2)),
